@@ -116,36 +116,63 @@ func (r *runner) call(req request) (outcome, error) {
 		line, err := c.out.ReadBytes('\n')
 		ch <- res{line, err}
 	}()
-	select {
-	case x := <-ch:
-		if x.err != nil || len(x.line) == 0 {
-			c.cmd.Wait()
-			msg := c.stderr.String()
-			r.c = nil
-			first := ""
-			for _, l := range strings.Split(msg, "\n") {
-				if strings.HasPrefix(l, "fatal error:") || strings.HasPrefix(l, "panic:") || strings.HasPrefix(l, "runtime:") {
-					first = l
-					if !strings.HasPrefix(l, "runtime:") {
-						break
+	// watchdog: a deadline that depends on the size of the input, and a bound on the resident memory of the child
+	deadline := r.timeout
+	if len(req.Data) <= 256*1024 && deadline > 30*time.Second {
+		deadline = 30 * time.Second
+	}
+	start := time.Now()
+	tick := time.NewTicker(100 * time.Millisecond)
+	defer tick.Stop()
+	for {
+		select {
+		case x := <-ch:
+			if x.err != nil || len(x.line) == 0 {
+				c.cmd.Wait()
+				msg := c.stderr.String()
+				r.c = nil
+				first := ""
+				for _, l := range strings.Split(msg, "\n") {
+					if strings.HasPrefix(l, "fatal error:") || strings.HasPrefix(l, "panic:") || strings.HasPrefix(l, "runtime:") {
+						first = l
+						if !strings.HasPrefix(l, "runtime:") {
+							break
+						}
 					}
 				}
+				if len(msg) > 1500 {
+					msg = msg[:1500]
+				}
+				return outcome{crashed: true, detail: first + "\n" + msg}, nil
 			}
-			if len(msg) > 1500 {
-				msg = msg[:1500]
+			var resp response
+			if err := json.Unmarshal(x.line, &resp); err != nil {
+				return outcome{}, fmt.Errorf("bad response from child: %v", err)
 			}
-			return outcome{crashed: true, detail: first + "\n" + msg}, nil
+			return outcome{resp: &resp}, nil
+		case <-tick.C:
+			rss := childRSS(c.cmd.Process.Pid)
+			if time.Since(start) > deadline || rss > rssLimit {
+				c.kill()
+				r.c = nil
+				return outcome{timeout: true, detail: fmt.Sprintf("no answer after %.1f s (deadline %s), resident memory of the child %d MiB (bound %d MiB): killed",
+					time.Since(start).Seconds(), deadline, rss>>20, rssLimit>>20)}, nil
+			}
 		}
-		var resp response
-		if err := json.Unmarshal(x.line, &resp); err != nil {
-			return outcome{}, fmt.Errorf("bad response from child: %v", err)
-		}
-		return outcome{resp: &resp}, nil
-	case <-time.After(r.timeout):
-		c.kill()
-		r.c = nil
-		return outcome{timeout: true, detail: "no answer within " + r.timeout.String()}, nil
 	}
+}
+
+const rssLimit = 3 << 30
+
+// childRSS: resident set size in bytes (Linux /proc), 0 if unknown.
+func childRSS(pid int) int64 {
+	b, err := os.ReadFile(fmt.Sprintf("/proc/%d/statm", pid))
+	if err != nil {
+		return 0
+	}
+	var size, resident int64
+	fmt.Sscanf(string(b), "%d %d", &size, &resident)
+	return resident * int64(os.Getpagesize())
 }
 
 // ---------- adversarial inputs ----------
@@ -215,6 +242,26 @@ func fixedAdversarial(tier string) []advCase {
 	add("address-garbage-2", hdrMsg("From: \"\"\"\"\"\"\"\"\"\""))
 	add("address-group", hdrMsg("From: g1:g2:g3:;;;, a@b, \"x\":<c@d>;"))
 	add("address-route", hdrMsg("From: <@a,@b:c@d>, (c1 (c2 (c3))) e@f (trailing)"))
+	// RFC 2047 encoded words: complete, truncated, malformed, at the end of the value / of the input, in every address field
+	ews := map[string]string{
+		"ok-q": "=?utf-8?q?abc?=", "ok-b": "=?UTF-8?B?QUJD?=", "unterminated-q": "=?utf-8?q?abc", "unterminated-b": "=?UTF-8?B?QUJD",
+		"one-question": "=?utf-8?q?abc?", "no-text": "=?utf-8?q?", "no-encoding": "=?utf-8?", "no-charset": "=?", "bad-encoding": "=?utf-8?x?abc?=",
+		"empty-text": "=?utf-8?q??=", "empty-charset": "=??q?abc?=", "nested": "=?utf-8?q?=?utf-8?q?abc?=?=", "nested-open": "=?utf-8?q?=?utf-8?q?abc",
+		"space-inside": "=?utf-8?q?a b", "8bit-inside": "=?utf-8?q?a\xc3\xa9", "long": "=?utf-8?q?" + rep("abc", 3000),
+	}
+	ewNames := []string{"ok-q", "ok-b", "unterminated-q", "unterminated-b", "one-question", "no-text", "no-encoding", "no-charset", "bad-encoding", "empty-text", "empty-charset", "nested", "nested-open", "space-inside", "8bit-inside", "long"}
+	for _, k := range ewNames {
+		w := ews[k]
+		add("encoded-word "+k+" From", hdrMsg("From: "+w))
+		add("encoded-word "+k+" display-name", hdrMsg("From: a@b\r\nTo: Bob "+w+" <c@d>"))
+		add("encoded-word "+k+" before-angle-eof", hdrMsg("From: a@b\r\nCc: Bob "+w))
+		add("encoded-word "+k+" in-angle", hdrMsg("From: a@b\r\nBcc: <"+w))
+		add("encoded-word "+k+" group", hdrMsg("From: a@b\r\nSender: grp: "+w))
+		add("encoded-word "+k+" reply-to-list", hdrMsg("From: a@b\r\nReply-To: x@y, "+w))
+		add("encoded-word "+k+" subject", hdrMsg("From: a@b\r\nSubject: re "+w))
+		add("encoded-word "+k+" end-of-input", []byte("From: "+w))
+		add("encoded-word "+k+" lf", []byte("To: "+w+"\nFrom: a@b\n\nx"))
+	}
 	add("many-headers", []byte(rep("X-H: v\r\n", 2000)+"\r\nbody"))
 	add("long-folded", []byte("Subject: a"+rep("\r\n b", 3000)+"\r\nFrom: a@b\r\n\r\nbody"))
 	depthMP, depthMsg := 150, 150
@@ -265,7 +312,14 @@ func mutate(rng *common.Rng, msg []byte) []byte {
 	for k := rng.Range(1, 4); k > 0 && len(b) > 2; k-- {
 		i := rng.Pick(len(b))
 		j := i + rng.Pick(len(b)-i)
-		switch rng.Pick(7) {
+		switch rng.Pick(8) {
+		case 7: // an address / unstructured field with a (possibly truncated) encoded word, as first line or before the blank line
+			line := []byte(mimegen.EncodedWordHeader(rng) + []string{"\r\n", "\n"}[rng.Pick(2)])
+			if k := bytes.Index(b, []byte("\n\r\n")); k >= 0 && rng.Chance(0.5) {
+				b = append(b[:k+1:k+1], append(line, b[k+1:]...)...)
+			} else {
+				b = append(line, b...)
+			}
 		case 0: // delete a range
 			b = append(b[:i:i], b[j:]...)
 		case 1: // duplicate a range
